@@ -26,7 +26,7 @@ COMPONENTS_REAL = ["geneticengine.grammar.grammar (extract_grammar, update_weigh
 COMPONENTS_STUB = ["RandomSource.randint/random_float (SimRandom)", "set iteration order (OrderedSimSet)"]
 ASSUMPTIONS = ["not every production of an abstract type has weight zero", "declared weight of an abstract production (nested abstract type) is 1 unless declared"]
 
-FEAT = features(weights=3, nested=3, unreachable=2, standalone=1, cls=6, refined=3, list=1, annlist=1, union=0, tuple=0, flaky=2, dependent=1, abstract_weights=1, nested_start=1, concrete_start=1)
+FEAT = features(weights=3, nested=3, unreachable=2, standalone=1, cls=6, refined=3, list=1, annlist=1, union=0, tuple=0, flaky=2, dependent=1, abstract_weights=1, nested_start=1, concrete_start=1, wide_weights=1)
 
 
 def budget(tier):
@@ -53,6 +53,22 @@ def run(ctx):
             ws = {declared[p] for p in ref.productions(a, reg)}
             if len(ws) >= 2:
                 ctx.nontrivial = True
+        if any_weighted and H.draw(4) == 0:
+            # F13 (history): an extraction that the library REJECTS (a negative weight was declared), after which the user corrects
+            # the declaration; nothing of the rejected attempt may survive in the classes
+            from geneticengine.grammar.decorators import weight as declare_weight
+
+            victims = [c for c in spec["classes"] if c.get("weight") is not None and c["name"] in reg]
+            if victims:
+                v = victims[H.draw(len(victims))]
+                declare_weight(-2.0)(b.cls[v["name"]])
+                try:
+                    b.extract()
+                    ctx.stat("history:negative-weight-accepted")
+                except Exception:
+                    ctx.stat("history:rejected-extraction")
+                declare_weight(v["weight"])(b.cls[v["name"]])
+                ctx.faults["carry_over"] += 1
         n_ext = 1 + H.draw(5)
         prev = None
         g = None
